@@ -59,6 +59,8 @@ COVER = set() if _os.environ.get("VERIF_COVER") else None
 # statements executed while a rule asked for a trace (rules/sem_lazy.py: lines reached by the twin with pending signs)
 TRACE = None
 _LAZY_FRAMES = []
+# (function, positional arguments incl. the receiver) of every interpreted call while a rule asked for it (R04.4)
+CALL_LOG = None
 
 
 class _OsStub:
@@ -153,6 +155,8 @@ class Evaluator:
         for n in names:
             if n not in env:
                 raise Unsupported(f"missing argument {n} calling {finfo.fq}")
+        if CALL_LOG is not None:
+            CALL_LOG.append((finfo.fq, [env[n] for n in ([x.arg for x in a.posonlyargs + a.args]) if n in env]))
         if TRACE is not None and any(isinstance(v, Obj) and v.fields.get("_phases") for v in env.values()):
             # a frame entered with pending signs on one of its operands: the statements executed inside its dynamic extent
             # are recorded against it (rules/sem_lazy.py)
@@ -321,6 +325,26 @@ class Evaluator:
         if isinstance(s, (ast.FunctionDef,)):
             env[s.name] = Closure(s, dict(env), fi, env)
             return
+        if isinstance(s, ast.With) and len(s.items) == 1 and s.items[0].optional_vars is None:
+            # with contextlib.suppress(E1, ...): the listed exceptions end the block silently
+            ce = s.items[0].context_expr
+            if isinstance(ce, ast.Call) and src(ce.func) in ("contextlib.suppress", "suppress") and not ce.keywords:
+                names = set()
+                for a_ in ce.args:
+                    for n_ in ast.walk(a_):
+                        if isinstance(n_, ast.Name):
+                            names.add(n_.id)
+                        elif isinstance(n_, ast.Attribute):
+                            names.add(n_.attr)
+                try:
+                    self.block(s.body, env, fi)
+                except (Raised, KeyError, IndexError, TypeError, AttributeError, ValueError, ZeroDivisionError, ImportError) as ex:
+                    if isinstance(ex, Unsupported):
+                        raise
+                    name = getattr(ex, "exc_name", None) or type(ex).__name__
+                    if name not in names and "Exception" not in names and not (name in ("KeyError", "IndexError") and "LookupError" in names):
+                        raise
+                return
         raise Unsupported(f"statement {type(s).__name__} in {fi.fq}: {src(s)[:60]}")
 
     def assign(self, t, v, env, fi):
@@ -711,6 +735,15 @@ class Evaluator:
             if n == "callable":
                 return isinstance(args[0], (Closure, FuncInfo)) or (callable(args[0]) and not isinstance(args[0], (ClassInfo,))) \
                     or (isinstance(args[0], tuple) and len(args[0]) == 3 and args[0][0] == "bound")
+            if n == "setattr" and len(args) == 3:
+                o, a, v = args
+                if not isinstance(o, Obj) or not isinstance(a, str):
+                    raise Unsupported("setattr on a value that is not a modelled object")
+                prop = self.prog.lookup_method(o.cls, a)
+                if prop is not None and prop.is_property:
+                    raise AttributeError(f"property '{a}' of '{o.cls.name}' object has no setter")
+                o.fields[a] = v
+                return None
             if n == "getattr" and len(args) >= 2:
                 try:
                     return self.getattr(args[0], args[1], fi)
